@@ -70,13 +70,15 @@ NChunks(L) == (Len(TermSeq(L)) + Chunk - 1) \div Chunk
 (* Records                                                                 *)
 (***************************************************************************)
 KeyOf(j) == IF j % 9 = 0 THEN "source" ELSE "gene"
-FeatRec(t, lab, key) == [key |-> key, label |-> lab, loc |-> t]
+FeatRec(t, lab, key) == [key |-> key, label |-> lab, loc |-> t, built |-> (Family \in {"cutsrepair", "reptab"})]
 
 HostFeats(L, c) ==
   LET ts == TermSeq(L)
       lo == (c - 1) * Chunk
       n  == IMin(Chunk, Len(ts) - lo)
-  IN [j \in 1..n |-> FeatRec(ts[lo + j], "f" \o ToString(j), KeyOf(j))]
+  \* "reptab": several features share key and qualifiers (label = j mod 5)
+  IN [j \in 1..n |-> FeatRec(ts[lo + j], "f" \o ToString(IF Family = "reptab" THEN j % 5 ELSE j),
+                              IF Family = "reptab" THEN (IF j % 5 = 0 THEN "source" ELSE "gene") ELSE KeyOf(j))]
 
 GuestFeats(n) ==
   << FeatRec(Rg(0, n, FALSE, FALSE), "g1", "gene"),
@@ -151,6 +153,18 @@ Program(L, x) ==
         IN [j \in 1..k |-> [op |-> "slice", src |-> "r0", dst |-> piece(j), s |-> bounds[j], e |-> bounds[j + 1]]]
            \o << [op |-> "concat", srcs |-> [j \in 1..k |-> piece(j)], dst |-> "c"],
                  Law("pieces", "r0", "c") >>
+    [] x[1] = "reptab" ->
+        << Op1("repair", "r0", "x1"), Op1("repair", "x1", "x2"),
+           [op |-> "law", name |-> "sameraw", a |-> "x1", b |-> "x2", via |-> "r0"] >>
+    [] x[1] = "cutsrepair" ->
+        LET cuts == CutsOf(x[2], L)
+            bounds == <<0>> \o cuts \o <<L>>
+            k == Len(bounds) - 1
+            piece(j) == "p" \o ToString(j)
+        IN [j \in 1..k |-> [op |-> "slice", src |-> "r0", dst |-> piece(j), s |-> bounds[j], e |-> bounds[j + 1]]]
+           \o << [op |-> "concat", srcs |-> [j \in 1..k |-> piece(j)], dst |-> "c"],
+                 Op1("repair", "c", "x1"), Op1("repair", "x1", "x2"),
+                 [op |-> "law", name |-> "sameraw", a |-> "x1", b |-> "x2", via |-> "c"], [op |-> "law", name |-> "sametable", a |-> "r0", b |-> "x1", via |-> "c"] >>
     [] OTHER -> << >>
 
 (***************************************************************************)
@@ -208,6 +222,8 @@ Instances(L) ==
   CASE Family = "edit" -> {x \in EditInstances(L) : x[1] \in OpKinds}
     [] Family = "rot2" -> {<<"rot2", a, b>> : a \in (0 - L)..(2 * L), b \in (0 - L)..(2 * L)}
     [] Family = "pure" -> PureInstances
+    [] Family = "reptab" -> {<<"reptab", 0, 0>>}
+    [] Family = "cutsrepair" -> {<<"cutsrepair", m, 0>> : m \in 1..(Pow2(L - 1) - 1)} \ {x \in {<<"cutsrepair", m, 0>> : m \in 1..(Pow2(L - 1) - 1)} : Len(CutsOf(x[2], L)) > 3}
     [] Family = "cuts" -> {<<"cuts", m, 0>> : m \in 0..(Pow2(L - 1) - 1)} \ {x \in {<<"cuts", m, 0>> : m \in 0..(Pow2(L - 1) - 1)} : Len(CutsOf(x[2], L)) > MaxCuts}
     [] OTHER -> {}
 
@@ -235,7 +251,8 @@ CaseJson(cs) ==
 RawOf(r) ==
   [res |-> r.res, topo |-> IF r.kind = "gb" THEN r.topo ELSE "na",
    feats |-> [j \in 1..Len(r.feats) |->
-                [key |-> r.feats[j].key, label |-> r.feats[j].label, loc |-> r.feats[j].loc,
+                [key |-> r.feats[j].key, label |-> r.feats[j].label,
+                 loc |-> IF r.feats[j].built THEN Built(r.feats[j].loc) ELSE r.feats[j].loc,
                  props |-> << <<"label", r.feats[j].label>> >>]],
    refs |-> << >>, region |-> << >>]
 
@@ -252,8 +269,10 @@ RunOps(ws, ops, k, acc) ==
   ELSE LET o == Head(ops) IN
        IF o.op = "law"
        THEN RunOps(ws, Tail(ops), k + 1, acc \cup {<<k, v[1], v[2],
-              (LET fs == SelectSeq(ws.recs[o.a].raw.feats, LAMBDA f : f.label = v[2]) IN IF fs = <<>> THEN "?" ELSE PrintLoc(fs[1].loc)),
-              (LET fs == SelectSeq(ws.recs[o.b].raw.feats, LAMBDA f : f.label = v[2]) IN IF fs = <<>> THEN "absent" ELSE PrintLoc(fs[1].loc))>> : v \in StepLaw(ws, o)})
+              (IF v[2] = "-" THEN JoinStr([q \in 1..Len(ws.recs[o.a].raw.feats) |-> ws.recs[o.a].raw.feats[q].label \o ":" \o PrintLoc(ws.recs[o.a].raw.feats[q].loc)], " ") ELSE
+               LET fs == SelectSeq(ws.recs[o.a].raw.feats, LAMBDA f : f.label = v[2]) IN IF fs = <<>> THEN "?" ELSE PrintLoc(fs[1].loc)),
+              (IF v[2] = "-" THEN JoinStr([q \in 1..Len(ws.recs[o.b].raw.feats) |-> ws.recs[o.b].raw.feats[q].label \o ":" \o PrintLoc(ws.recs[o.b].raw.feats[q].loc)], " ") ELSE
+               LET fs == SelectSeq(ws.recs[o.b].raw.feats, LAMBDA f : f.label = v[2]) IN IF fs = <<>> THEN "absent" ELSE JoinStr([q \in 1..Len(fs) |-> PrintLoc(fs[q].loc)], " | "))>> : v \in {w \in StepLaw(ws, o) : ExplainsLaw(ws, o, w) = {}}})
        ELSE LET e  == o @@ [st |-> CalcOp(ws.recs, o), panic |-> ""]
                 w2 == StepOp(ws, e, FALSE)
                 bad == {v \in w2.vs : Explains(ws, e, v) = {}}
